@@ -168,7 +168,8 @@ def job_parallel_plates_shape(res, n, g):
         if z is not None: witness(res, 'ParallelPlatesCSR n=%d: sample 1 depends on the Airy values (%d calls)' % (n, cnt[0]), s1.pc, z3.BoolVal(cnt[0] > 0 and not z3.is_rational_value(z3.simplify(z[1][0]))))
         # a second request in the same process, same machine parameters, another sample count (main asks for the wake grid and then for the radiation grid): judged on its own
         s1.frames = []
-        for s2 in run_paths(ex, s1, 'e_parplates', [n + 3, Fraction(f32(2.7e6)), Fraction(f32(1e12)), Fraction(g)]): shape(s2, n + 3, ' (second request of the process, after one for %d samples)' % n)
+        n2 = n - 3 if n >= 8 else n + 3
+        for s2 in run_paths(ex, s1, 'e_parplates', [n2, Fraction(f32(2.7e6)), Fraction(f32(1e12)), Fraction(g)]): shape(s2, n2, ' (second request of the process, after one for %d samples)' % n)
 
 READ_DATA = '_ZN4vfps9Impedance8readDataENSt7__cxx1112basic_stringIcSt11char_traitsIcESaIcEEE'
 def job_factory_file(res, n, L, gap_sign, wall):
